@@ -16,7 +16,7 @@ import (
 
 func init() {
 	scenarios["C01"] = func(ctx *Ctx) { cAuth(ctx, "C01") }
-	scenarios["C08"] = func(ctx *Ctx) { cAuth(ctx, "C08") }
+	scenarios["C08"] = func(ctx *Ctx) { cAuth(ctx, "C08"); c08Parallel(ctx) }
 }
 
 var cipherNames = []string{shadowsocks.CHACHA20IETFPOLY1305, shadowsocks.AES256GCM, shadowsocks.AES192GCM, shadowsocks.AES128GCM}
